@@ -746,24 +746,13 @@ impl S3 for FileSystem {
             return Err(s3_error!(AccessDenied));
         }
 
-        self.delete_upload_id(&upload_id).await?;
-
-        if let Ok(Some(metadata)) = self.load_metadata(&bucket, &key, Some(upload_id)).await {
-            self.save_metadata(&bucket, &key, &metadata, None).await?;
-            let _ = self.delete_metadata(&bucket, &key, Some(upload_id));
-        }
-
         let object_path = self.get_object_path(&bucket, &key)?;
-        let mut file_writer = self.prepare_file_write(&object_path).await?;
 
+        // validate the part list before anything is changed: a rejected request leaves the upload as it was
+        let parts = multipart_upload.parts.unwrap_or_default();
+        let total_parts_cnt = i32::try_from(parts.len()).expect("total number of parts must be <= 10000.");
         let mut cnt: i32 = 0;
-        let total_parts_cnt = multipart_upload
-            .parts
-            .as_ref()
-            .map(|parts| i32::try_from(parts.len()).expect("total number of parts must be <= 10000."))
-            .unwrap_or_default();
-
-        for part in multipart_upload.parts.into_iter().flatten() {
+        for part in &parts {
             let part_number = part
                 .part_number
                 .ok_or_else(|| s3_error!(InvalidRequest, "missing part number"))?;
@@ -773,18 +762,35 @@ impl S3 for FileSystem {
             }
 
             let part_path = self.resolve_upload_part_path(upload_id, part_number)?;
+            let size = fs::metadata(&part_path).await.map_err(|e| s3_error!(e, InvalidPart))?.len();
+            if part_number != total_parts_cnt && size < 5 * 1024 * 1024 {
+                return Err(s3_error!(EntityTooSmall));
+            }
+        }
+
+        let mut file_writer = self.prepare_file_write(&object_path).await?;
+        let mut part_paths = Vec::with_capacity(parts.len());
+        for part_number in 1..=total_parts_cnt {
+            let part_path = self.resolve_upload_part_path(upload_id, part_number)?;
 
             let mut reader = try_!(fs::File::open(&part_path).await);
             let size = try_!(tokio::io::copy(&mut reader, &mut file_writer.writer()).await);
 
-            if part_number != total_parts_cnt && size < 5 * 1024 * 1024 {
-                return Err(s3_error!(EntityTooSmall));
-            }
-
             debug!(from = %part_path.display(), tmp = %file_writer.tmp_path().display(), to = %file_writer.dest_path().display(), ?size, "write file");
-            try_!(fs::remove_file(&part_path).await);
+            part_paths.push(part_path);
         }
         file_writer.done().await?;
+
+        // the object is in place: the upload is over
+        self.delete_upload_id(&upload_id).await?;
+        self.delete_object_side_files(&bucket, &key)?;
+        if let Ok(Some(metadata)) = self.load_metadata(&bucket, &key, Some(upload_id)).await {
+            self.save_metadata(&bucket, &key, &metadata, None).await?;
+            let _ = self.delete_metadata(&bucket, &key, Some(upload_id));
+        }
+        for part_path in part_paths {
+            try_!(fs::remove_file(&part_path).await);
+        }
 
         let file_size = try_!(fs::metadata(&object_path).await).len();
         let md5_sum = self.get_md5_sum(&bucket, &key).await?;
